@@ -48,6 +48,9 @@ func repoDir() string {
 
 func TestMain(m *testing.M) {
 	// used as CASYNC_SSH_PATH shim: serve the sftp subsystem over stdio on the real file system
+	if os.Getenv("VERIF_SSH_SHIM") == "1" {
+		sshShimMain()
+	}
 	if os.Getenv("VERIF_SFTP_SHIM") == "1" {
 		srv, err := sftp.NewServer(stdio{})
 		if err != nil {
